@@ -417,7 +417,7 @@ func (w *World) apply(m *myconn, s *Server, c *StmtCtx, id int64) *result {
 		}
 		s.IORun = true
 		s.SSReg = s.SSSlave // M2
-		if s.LastIOErrno != 0 && !isPermanentIO(s.LastIOErrno) {
+		if !s.StickyErr {
 			s.LastIOErrno = 0
 		}
 		return &result{}
@@ -429,6 +429,9 @@ func (w *World) apply(m *myconn, s *Server, c *StmtCtx, id int64) *result {
 			return &result{errno: 1200, msg: "The server is not configured as replica"}
 		}
 		s.SQLRun = true
+		if !s.StickyErr {
+			s.LastSQLErrno = 0
+		}
 		return &result{}
 	case "stop_replica":
 		s.IORun, s.SQLRun = false, false
@@ -439,6 +442,9 @@ func (w *World) apply(m *myconn, s *Server, c *StmtCtx, id int64) *result {
 		}
 		s.IORun, s.SQLRun = true, true
 		s.SSReg = s.SSSlave // M2
+		if !s.StickyErr {
+			s.LastIOErrno, s.LastSQLErrno = 0, 0
+		}
 		return &result{}
 	case "reset_replica":
 		if s.IORun || s.SQLRun {
@@ -489,5 +495,3 @@ func (w *World) apply(m *myconn, s *Server, c *StmtCtx, id int64) *result {
 	}
 	return &result{errno: 1064, msg: "fake: unhandled class " + c.Class}
 }
-
-func isPermanentIO(errno int) bool { return errno == 1236 || errno == 13114 }
